@@ -1,4 +1,4 @@
-import RsslVerif.Lemmas.ElabRelease
+import RsslVerif.Lemmas.ElabPlace
 import RsslVerif.Lemmas.Overload
 /-!
 # C03 — accepted programs elaborate to well-typed IR; ill-typed programs are rejected
@@ -11,7 +11,8 @@ All are universally quantified: any environment, any expression nesting, any typ
 namespace RsslVerif.Thm.C03
 open RsslVerif.Gen.RankTable RsslVerif.Gen.TypingTables RsslVerif.Model.Conv RsslVerif.Model.Overload
 open RsslVerif.Model.IrTyping RsslVerif.Model.Elab RsslVerif.Lemmas.ElabConv RsslVerif.Lemmas.Elab
-open RsslVerif.Lemmas.ElabForms RsslVerif.Lemmas.ElabExact RsslVerif.Lemmas.ElabRelease RsslVerif.Lemmas.Overload
+open RsslVerif.Lemmas.ElabForms RsslVerif.Lemmas.ElabExact RsslVerif.Lemmas.ElabRelease RsslVerif.Lemmas.ElabPlace
+open RsslVerif.Lemmas.Overload
 open RsslVerif.Spec.Overload
 
 /-! ## `ImplicitConversion::find` -/
@@ -431,42 +432,44 @@ theorem elab_assign_exact {Γ : Env} {dbg : Bool} {o : BinOp} {a b : SExpr} {e' 
           · simp at hn
           · split at hn
             · simp at hn
-            · simp at hn
             · split at hn
               · simp at hn
-              · rename_i i hi
-                split at hn
+              · simp at hn
+              · split at hn
                 · simp at hn
-                · rename_i out hout
-                  simp only [Except.ok.injEq, Prod.mk.injEq] at hn
-                  obtain ⟨rfl, rfl⟩ := hn
-                  obtain ⟨_, _, hl⟩ := binop_rules o i hi
-                  obtain ⟨hsame, _, _⟩ := binop_rules o i hi
-                  obtain ⟨ta, tb, h1, h2, h3, h4⟩ := assignment_operands ⟨hl ho, hsame⟩ hs
-                  have hta : ta = τa := by
-                    have e1 := typeOf_of_hasType _ _ h1
-                    have e2 := typeOf_of_hasType _ _ iha
-                    rw [e1] at e2; simpa using e2
-                  subst hta
-                  refine ⟨i, _, _, ta, tb, rfl, h1, h2, h3, h4, by simpa using hconst, ?_⟩
-                  -- the result type is the left operand's type
-                  have := typeOf_of_hasType _ _ hs
-                  cases hs with
-                  | op hargs hret =>
-                    cases hargs with
-                    | cons ha' hr =>
-                      cases hr with
-                      | cons hb' hn' =>
-                        cases hn'
-                        have e1 := typeOf_of_hasType _ _ ha'
-                        have e2 := typeOf_of_hasType _ _ h1
-                        rw [e1] at e2
-                        simp at e2; subst e2
-                        have hres : i.rule.result = .arg0 := by
-                          cases o <;> simp [BinOp.cls] at ho <;> simp [BinOp.toIOp] at hi <;> subst hi <;> rfl
-                        simp only [opReturn, hres] at hret
-                        repeat' split at hret
-                        all_goals (first | (simp at hret; done) | (simp at hret; exact hret.symm))
+                · rename_i i hi
+                  split at hn
+                  · simp at hn
+                  · rename_i out hout
+                    simp only [Except.ok.injEq, Prod.mk.injEq] at hn
+                    obtain ⟨rfl, rfl⟩ := hn
+                    obtain ⟨_, _, hl⟩ := binop_rules o i hi
+                    obtain ⟨hsame, _, _⟩ := binop_rules o i hi
+                    obtain ⟨ta, tb, h1, h2, h3, h4⟩ := assignment_operands ⟨hl ho, hsame⟩ hs
+                    have hta : ta = τa := by
+                      have e1 := typeOf_of_hasType _ _ h1
+                      have e2 := typeOf_of_hasType _ _ iha
+                      rw [e1] at e2; simpa using e2
+                    subst hta
+                    refine ⟨i, _, _, ta, tb, rfl, h1, h2, h3, h4, by simpa using hconst, ?_⟩
+                    -- the result type is the left operand's type
+                    have := typeOf_of_hasType _ _ hs
+                    cases hs with
+                    | op hargs hret =>
+                      cases hargs with
+                      | cons ha' hr =>
+                        cases hr with
+                        | cons hb' hn' =>
+                          cases hn'
+                          have e1 := typeOf_of_hasType _ _ ha'
+                          have e2 := typeOf_of_hasType _ _ h1
+                          rw [e1] at e2
+                          simp at e2; subst e2
+                          have hres : i.rule.result = .arg0 := by
+                            cases o <;> simp [BinOp.cls] at ho <;> simp [BinOp.toIOp] at hi <;> subst hi <;> rfl
+                          simp only [opReturn, hres] at hret
+                          repeat' split at hret
+                          all_goals (first | (simp at hret; done) | (simp at hret; exact hret.symm))
 
 /-- **Accepted arithmetic / comparison / bit / logical operators** receive two operands of exactly the same type -/
 theorem elab_arith_exact {Γ : Env} {dbg : Bool} {o : BinOp} {a b : SExpr} {e' : IExpr} {τ : ETy} (ho : o.cls = .arith)
@@ -498,6 +501,196 @@ theorem elab_arith_exact {Γ : Env} {dbg : Bool} {o : BinOp} {a b : SExpr} {e' :
           obtain ⟨ta, tb, h1, h2, h3⟩ := binary_operands_equal hsame hs
           exact ⟨i, _, _, ta, tb, rfl, h1, h2, h3⟩)
 
+/-- the scalar kind a vector / matrix operation is done in is never an untyped literal kind (table fact about the
+    re-extracted `Gen.TypingTables.litVecRemap`) -/
+theorem arithScalar_concrete (ts : Scalar) (dim : Dim) (hd : (Layer.ofDim (arithScalar ts dim) dim).isVecOrMat = true) :
+    (Layer.ofDim (arithScalar ts dim) dim).extractScalar ≠ some .intLiteral ∧
+    (Layer.ofDim (arithScalar ts dim) dim).extractScalar ≠ some .floatLiteral := by
+  cases dim with
+  | scalar => simp [Layer.ofDim, Layer.isVecOrMat] at hd
+  | vector n => cases ts <;> simp [arithScalar, litVecRemap, Layer.ofDim, Layer.extractScalar]
+  | matrix x y => cases ts <;> simp [arithScalar, litVecRemap, Layer.ofDim, Layer.extractScalar]
+
+theorem elabArith_inv {o : BinOp} {a b n : IExpr} {τa τb τ' : ETy} (h : elabArith o a τa b τb = .ok (n, τ')) :
+    ∃ ts dim ca cb, find τa (Ty.mk {} (Layer.ofDim (arithScalar ts dim) dim)).r = .ok (some ca) ∧
+      find τb (Ty.mk {} (Layer.ofDim (arithScalar ts dim) dim)).r = .ok (some cb) ∧ arithBuild o ca cb a b = .ok (n, τ') := by
+  unfold elabArith at h
+  split at h
+  all_goals (first | (simp at h; done) | skip)
+  split at h
+  all_goals (first | (simp at h; done) | skip)
+  rename_i ts hts
+  split at h
+  all_goals (first | (simp at h; done) | skip)
+  rename_i dim hdim
+  split at h
+  all_goals (first | (simp at h; done) | skip)
+  rename_i ca hfa
+  split at h
+  all_goals (first | (simp at h; done) | skip)
+  rename_i cb hfb
+  exact ⟨ts, dim, ca, cb, hfa, hfb, h⟩
+
+theorem arithBuild_inv {o : BinOp} {ca cb : Conversion} {a b n : IExpr} {τ' : ETy}
+    (h : arithBuild o ca cb a b = .ok (n, τ')) :
+    ∃ i a' b', applyConv ca a = .ok a' ∧ applyConv cb b = .ok b' ∧ n = .op i (.cons a' (.cons b' .nil)) := by
+  unfold arithBuild at h
+  split at h
+  all_goals (first | (simp at h; done) | skip)
+  split at h
+  all_goals (first | (simp at h; done) | skip)
+  split at h
+  all_goals (first | (simp at h; done) | skip)
+  split at h
+  all_goals (first | (simp at h; done) | skip)
+  rename_i a' haa
+  split at h
+  all_goals (first | (simp at h; done) | skip)
+  rename_i b' hbb
+  split at h
+  all_goals (first | (simp at h; done) | skip)
+  rename_i i hi
+  split at h
+  all_goals (first | (simp at h; done) | skip)
+  simp only [Except.ok.injEq, Prod.mk.injEq] at h
+  exact ⟨i, a', b', haa, hbb, h.1.symm⟩
+
+/-- **Vector and matrix operators are done in a concrete scalar kind** (fix 40c6233): the two operands of an accepted
+    arithmetic / comparison / bit operator that works on vectors or matrices never have the element kind `IntLiteral` /
+    `FloatLiteral` (`v * 1.5` for `int3 v` used to be typed `Vector(FloatLiteral, 3)`, a type no target can express) -/
+theorem elab_arith_vector_kind_concrete {Γ : Env} {dbg : Bool} {o : BinOp} {a b : SExpr} {e' : IExpr} {τ : ETy}
+    (ho : o.cls = .arith) (h : elabE dbg Γ (.bin o a b) = .ok (e', τ)) :
+    ∃ i a' b' ta tb, e' = .op i (.cons a' (.cons b' .nil)) ∧ HasType Γ a' ta ∧ HasType Γ b' tb ∧ ta.ty = tb.ty ∧
+      (ta.ty.layer.isVecOrMat = true →
+        ta.ty.layer.extractScalar ≠ some .intLiteral ∧ ta.ty.layer.extractScalar ≠ some .floatLiteral) := by
+  obtain ⟨i, a', b', ta, tb, rfl, h1, h2, h3⟩ := elab_arith_exact ho h
+  refine ⟨i, a', b', ta, tb, rfl, h1, h2, h3, ?_⟩
+  simp only [elabE] at h
+  split at h
+  · simp at h
+  · rename_i a1 τa ha
+    have iha := elab_sound ha
+    split at h
+    · simp at h
+    · simp only [ho] at h
+      split at h
+      · simp at h
+      · rename_i n τn hn
+        obtain ⟨hnn, _⟩ := selfCheck_type h
+        obtain ⟨ts, dim, ca, cb, hfa, _, hb⟩ := elabArith_inv hn
+        obtain ⟨i2, a2, b2, haa, _, rfl⟩ := arithBuild_inv hb
+        simp at hnn
+        obtain ⟨_, rfl, _⟩ := hnn
+        obtain ⟨τa', t1, t2, _⟩ := applyConv_type iha hfa haa
+        have e1 := typeOf_of_hasType _ _ t1
+        have e2 := typeOf_of_hasType _ _ h1
+        rw [e1] at e2
+        simp at e2; subst e2
+        rw [t2]
+        exact arithScalar_concrete ts dim
+
+/-- non-vacuity: `int3 v0; v0 * 1.5` is done in `float3` (both operands cast to `float3`), `bool3`-free `v0 + 1` stays `int3` -/
+example :
+    ((match elabE true { vars := [⟨{}, .vector .int32 3⟩], funcs := [] } (.bin .multiply (.var 0) (.lit .floatLiteral)) with
+      | .ok (.op .multiply (.cons (.cast t1 (.var 0)) (.cons (.cast t2 (.lit .floatLiteral)) .nil)), τ) =>
+        decide (τ = ⟨⟨{}, .vector .float32 3⟩, .rvalue⟩ ∧ t1 = ⟨{}, .vector .float32 3⟩ ∧ t2 = t1)
+      | _ => false) &&
+     (match elabE true { vars := [⟨{}, .vector .int32 3⟩], funcs := [] } (.bin .add (.var 0) (.lit .intLiteral)) with
+      | .ok (_, τ) => decide (τ = ⟨⟨{}, .vector .int32 3⟩, .rvalue⟩)
+      | _ => false)) = true := by decide
+
+/-! ### `?:` with a vector / matrix arm (fix c05bffa) -/
+
+theorem litTernRemap_concrete (s : Scalar) : litTernRemap s ≠ .intLiteral ∧ litTernRemap s ≠ .floatLiteral := by
+  cases s <;> decide
+
+theorem ofDim_concrete {s : Scalar} (d : Dim) (h : s ≠ .intLiteral ∧ s ≠ .floatLiteral) :
+    (Layer.ofDim s d).extractScalar ≠ some .intLiteral ∧ (Layer.ofDim s d).extractScalar ≠ some .floatLiteral := by
+  cases d <;> simp [Layer.ofDim, Layer.extractScalar, h.1, h.2]
+
+theorem ternTargets_concrete {la lb lt rt : Layer} (h : ternTargets la lb = .ok (lt, rt)) (heq : lt = rt)
+    (hv : lt.isVecOrMat = true) :
+    lt.extractScalar ≠ some .intLiteral ∧ lt.extractScalar ≠ some .floatLiteral := by
+  subst heq
+  cases la <;> cases lb <;>
+    simp [ternTargets, Layer.extractScalar, mostSignificantDimension, ternScalar, Layer.transformScalar] at h
+  all_goals (try (obtain ⟨rfl, h2⟩ := h))
+  all_goals (try (simp at h2; done))
+  all_goals (try (simp [Layer.ofDim, Layer.isVecOrMat] at hv; done))
+  all_goals (try (exact ofDim_concrete _ (litTernRemap_concrete _)))
+  all_goals (try (simp [Layer.extractScalar]; exact litTernRemap_concrete _))
+  all_goals (
+    split at h
+    all_goals (try (simp at h; done))
+    all_goals (try (rename_i hs hd; simp at hs; done))
+    all_goals (try (
+      rename_i hs hd
+      simp at hs; subst hs
+      simp at h; obtain ⟨rfl, _⟩ := h
+      exact ofDim_concrete _ (litTernRemap_concrete _)))
+    all_goals (try (
+      rename_i hs hd
+      simp at hs; subst hs
+      simp at h; obtain ⟨rfl, _⟩ := h
+      simp [Layer.extractScalar]; exact litTernRemap_concrete _)))
+
+theorem ternBuild_result {c a b n : IExpr} {τc τa τb d τ' : ETy} {ca cb : Conversion}
+    (hfa : find τa d = .ok (some ca)) (hfb : find τb d = .ok (some cb))
+    (h : ternBuild c τc ca cb a b = .ok (n, τ')) : τ' = d := by
+  unfold ternBuild at h
+  rw [targetType_ok hfa, targetType_ok hfb] at h
+  split at h
+  · simp at h
+  · split at h
+    · simp at h
+    · simp only [ne_eq, not_true_eq_false, if_false] at h
+      split at h
+      · simp at h
+      · split at h
+        · simp at h
+        · simp at h
+        · simp at h; exact h.2.symm
+
+theorem elabTern_result_layer {c a b n : IExpr} {τc τa τb τ' : ETy} (h : elabTern c τc a τa b τb = .ok (n, τ')) :
+    ∃ lt rt, ternTargets τa.ty.layer τb.ty.layer = .ok (lt, rt) ∧ lt = rt ∧ τ'.ty.layer = lt := by
+  unfold elabTern at h
+  split at h
+  · simp at h
+  · rename_i lt rt htt
+    split at h
+    · simp at h
+    · rename_i heq
+      split at h
+      all_goals (first | (simp at h; done) | skip)
+      rename_i ca hfa
+      split at h
+      all_goals (first | (simp at h; done) | skip)
+      rename_i cb hfb
+      have := ternBuild_result hfa hfb h
+      subst this
+      exact ⟨lt, rt, htt, by simpa using heq, rfl⟩
+
+/-- **A conditional expression with a vector / matrix arm has a concrete element kind** (fix c05bffa): the type of an accepted
+    `c ? a : b` that is a vector or matrix never has the element kind `IntLiteral` / `FloatLiteral` (`c ? v : 1.5` for `int3 v`
+    used to be typed `Vector(FloatLiteral, 3)`) -/
+theorem elab_tern_vector_kind_concrete {Γ : Env} {dbg : Bool} {c a b : SExpr} {e' : IExpr} {τ : ETy}
+    (h : elabE dbg Γ (.tern c a b) = .ok (e', τ)) (hv : τ.ty.layer.isVecOrMat = true) :
+    τ.ty.layer.extractScalar ≠ some .intLiteral ∧ τ.ty.layer.extractScalar ≠ some .floatLiteral := by
+  simp only [elabE] at h
+  split at h
+  · simp at h
+  · split at h
+    · simp at h
+    · split at h
+      · simp at h
+      · split at h
+        · simp at h
+        · rename_i n τn hn
+          obtain ⟨_, rfl⟩ := selfCheck_type h
+          obtain ⟨lt, rt, htt, heq, hl⟩ := elabTern_result_layer hn
+          rw [hl] at hv ⊢
+          exact ternTargets_concrete htt heq hv
+
 /-- **Accepted calls.**  The callee exists, the result has its return type, and every argument expression has
     exactly the type of its parameter — no implicit conversion remains. -/
 theorem elab_call_args_exact {Γ : Env} {dbg : Bool} {name : Nat} {args : SArgs} {e' : IExpr} {τ : ETy}
@@ -515,15 +708,57 @@ theorem elab_call_args_exact {Γ : Env} {dbg : Bool} {name : Nat} {args : SArgs}
       · simp at h
       · rename_i n τn hn
         obtain ⟨rfl, rfl⟩ := selfCheck_type h
-        unfold elabCall at hn
-        repeat' split at hn
-        all_goals (first | (simp at hn; done) | skip)
-        all_goals (
-          simp only [Except.ok.injEq, Prod.mk.injEq] at hn
-          obtain ⟨rfl, rfl⟩ := hn
-          rename_i id _ _ s hs _ as'' hca
-          obtain ⟨us, h1, h2⟩ := castArgs_exact s.params as1 ts as'' iha hca
-          exact ⟨id, s, as'', us, rfl, hs, rfl, h1, h2⟩)
+        obtain ⟨id, s, as'', _, hs, hca, _, rfl, rfl⟩ := elabCall_inv hn
+        obtain ⟨us, h1, h2⟩ := castArgs_exact s.params as1 ts as'' iha hca
+        exact ⟨id, s, as'', us, rfl, hs, rfl, h1, h2⟩
+
+/-- **`out` / `inout` arguments are mutable lvalues.**  In an accepted call every argument given for an `out` / `inout`
+    parameter is — under the IR's own typing rules — an lvalue of non-const type (`OutArgsPlaces`), hence never the result
+    of a conversion (`out_arg_not_converted`): `check_output_arguments` runs on the arguments *after* `apply_casts`
+    (fixes b359800, 3758fdd).  Before the fix `void f0(out int); int1 v0; f0(v0)` elaborated to `f0(Cast(int, v0))` — the
+    former witness `out_arg_receives_cast`. -/
+theorem elab_out_args_are_lvalues {Γ : Env} {dbg : Bool} {name : Nat} {args : SArgs} {e' : IExpr} {τ : ETy}
+    (h : elabE dbg Γ (.call name args) = .ok (e', τ)) :
+    ∃ id s as', e' = .call id as' ∧ Γ.funcs[id]? = some s ∧ OutArgsPlaces Γ s.params as' := by
+  simp only [elabE] at h
+  split at h
+  · simp at h
+  · split at h
+    · simp at h
+    · rename_i as1 ts ha
+      have iha := elabArgs_sound_any dbg args as1 ts ha
+      split at h
+      · simp at h
+      · rename_i n τn hn
+        obtain ⟨rfl, rfl⟩ := selfCheck_type h
+        obtain ⟨id, s, as'', _, hs, hca, hco, rfl, rfl⟩ := elabCall_inv hn
+        obtain ⟨us, h1, _⟩ := castArgs_exact s.params as1 ts as'' iha hca
+        exact ⟨id, s, as'', rfl, hs, checkOutArgs_places s.params as'' us h1 hco⟩
+
+/-- an lvalue is not a `Cast` and not a re-tagged literal, the two nodes `ImplicitConversion::apply` can wrap an argument in -/
+theorem out_arg_not_converted {Γ : Env} {e : IExpr} {τ : ETy} (he : HasType Γ e τ) (hv : τ.vt = .lvalue) :
+    (∀ t x, e ≠ .cast t x) ∧ (∀ k, e ≠ .lit k) := lvalue_not_converted he hv
+
+/-- the former witness is now rejected: `void f0(out int); int1 v0; f0(v0)` reports `LvalueRequired` (the argument would be
+    `Cast(int, v0)`), like `inout int1` given an `int` and `out float2x2` given a `row_major float2x2`; `f0(v1)` with
+    `int v1` is accepted with the variable itself as argument -/
+def outEnv : Env :=
+  { vars := [⟨{}, .vector .int32 1⟩, ⟨{}, .scalar .int32⟩, ⟨{ rest := 1 }, .matrix .float32 2 2⟩],
+    funcs := [⟨0, [⟨⟨{}, .scalar .int32⟩, .out⟩], 1, ⟨{}, .scalar .int32⟩⟩,
+              ⟨1, [⟨⟨{}, .vector .int32 1⟩, .inOut⟩], 1, ⟨{}, .scalar .int32⟩⟩,
+              ⟨2, [⟨⟨{}, .matrix .float32 2 2⟩, .out⟩], 1, ⟨{}, .scalar .int32⟩⟩] }
+
+def lvalueRequired (e : SExpr) : Bool :=
+  match elabE true outEnv e with
+  | .error (.reject "LvalueRequired") => true
+  | _ => false
+
+example :
+    (lvalueRequired (.call 0 (.cons (.var 0) .nil)) && lvalueRequired (.call 1 (.cons (.var 1) .nil)) &&
+     lvalueRequired (.call 2 (.cons (.var 2) .nil)) &&
+     (match elabE true outEnv (.call 0 (.cons (.var 1) .nil)) with
+      | .ok (.call 0 (.cons (.var 1) .nil), _) => true
+      | _ => false)) = true := by decide
 
 /-- writes to the source forms the property lists (literal, `a + b`, function result, and casts, `?:`, `a++`, `-a`, ...)
     are never accepted -/
@@ -546,17 +781,5 @@ theorem elab_rejects_increment_of_rvalue_form {Γ : Env} {dbg : Bool} {o : UnOp}
   | ok p =>
     obtain ⟨e', τ⟩ := p
     exact elab_rejects_increment ho he (Or.inl (rvalue_forms hf he)) r h
-
-/-! ## where the statements stop: witnesses replayed on the implementation -/
-
-/-- **An rvalue reaches an `out` parameter.**  `void f0(out int); int1 v0; f0(v0)` is accepted and elaborates to
-    `f0(Cast(int, v0))`: `find` allows `int1 → int` towards an lvalue, `apply` turns it into a cast.  (So
-    `elab_call_args_exact` cannot be strengthened to "lvalue arguments for out parameters"; still true after the fix batch.) -/
-theorem out_arg_receives_cast :
-    (match elabE true { vars := [⟨{}, .vector .int32 1⟩],
-                        funcs := [⟨0, [⟨⟨{}, .scalar .int32⟩, .out⟩], 1, ⟨{}, .scalar .int32⟩⟩] }
-        (.call 0 (.cons (.var 0) .nil)) with
-     | .ok (.call 0 (.cons (.cast _ (.var 0)) .nil), _) => true
-     | _ => false) = true := by decide
 
 end RsslVerif.Thm.C03
